@@ -25,10 +25,10 @@ RULE = ("part 'validate': generated types (fields by for_types / for_value / ser
         "skip, assertion callbacks none/passing/failing/raising, bodies logging valid/invalid/traceback messages are run with "
         "unittest.TestResult; afterwards the default logger IS the previous one (identity and behavioural probe through a "
         "registered destination) and the result is unsuccessful iff the body or the log checks failed. non-trivial = deviation "
-        "case or non-pass outcome; distinct by (field kind, deviation kind, message kind) / (outcome, assertion, body)")
+        "case or non-pass outcome; distinct by (field kind, deviation kind, message kind, exact deviation, field kinds of the type, position in the log) / (outcome, assertion, body, decorator)")
 ASSUMPTIONS = ["'reported' means validate()/check_for_errors raises (any exception class)",
                "default-logger identity is read from eliot._output._DEFAULT_LOGGER in addition to the behavioural probe"]
-BATCH = 50
+BATCH = 250
 
 FIELD_KINDS = ["types", "value", "ser_str", "ser_validating", "extra_validator"]
 MSG_KINDS = ["message", "action_start", "action_success", "action_failed", "traceback"]
@@ -38,9 +38,9 @@ TYPE_POOL = [str, int, float, bool, list, dict, None]
 
 
 def plan(tier, seed):
-    n = 3000 if tier == "quick" else 60000
+    n = 40000 if tier == "quick" else 400000
     specs = [{"part": "validate", "seed": seed, "lo": i, "hi": min(n, i + BATCH)} for i in range(0, n, BATCH)]
-    m = 400 if tier == "quick" else 4000
+    m = 4000 if tier == "quick" else 20000
     specs += [{"part": "capture", "seed": seed, "lo": i, "hi": min(m, i + 20)} for i in range(0, m, 20)]
     return specs
 
@@ -243,6 +243,7 @@ def one_validate(seed, i, res):
         if this_rejects:
             rejected = True
             sig = (fkind, applied.split(":")[0], mkind)
+            sig_detail = [applied, sorted(fm.kind for fm in fms), nmsgs, j]
     unflushed = bool(logger.tracebackMessages)
     # ---- oracle (validate() serializes the stored messages in place, so each log is judged by ONE call)
     v_raised = None
@@ -273,7 +274,7 @@ def one_validate(seed, i, res):
     c["unflushed_traceback_logs"] = c.get("unflushed_traceback_logs", 0) + int(unflushed)
     c["unflushed_and_invalid"] = c.get("unflushed_and_invalid", 0) + int(unflushed and rejected)
     if sig:
-        res["nontrivial"].append(h(list(sig)))
+        res["nontrivial"].append(h([list(sig), sig_detail]))
         res["sets"]["deviation_signatures"].append("%s/%s/%s" % sig)
     if res.get("sample") is None and sig:
         res["sample"] = {"deviation": sig, "messages": logger.messages[:4], "validate_raised": repr(v_raised)[:200]}
